@@ -73,6 +73,12 @@ CHECKS = {
         text="For each enumerated well-formed parent pre-state and each public child-list operation, CrossHair executes the real method with the index (range -7..7) and item selectors as solver variables and must confirm over all paths that the local invariant holds afterwards and that a raising operation changed nothing. One inductive step from any valid local state covers edit histories of any length because the invariant is local to a (parent, children) pair. Counterexamples are re-run in CPython.",
         note="Pre-states: 7 parent kinds quick / 20 thorough, built with the real constructors; 10 candidate item kinds; index -7..7. 'Not confirmed' counts as inconclusive. Trusted: CrossHair, z3.",
         ref="5/C14"),
+    "C28": dict(
+        level="model_checking", engine="fsym",
+        technique="SMT over path-guarded PreStart/PostEnd call events of the symbolically executed instrumented text: z3 decides, for all inputs and all paths within K unrollings, that region depth counters stay in {0,1}, nest LIFO and return to 0",
+        text="Real ProfileTrans, ExtractTrans, NanTestTrans and ReadOnlyVerifyTrans (no force) on every consecutive statement range of every schedule (routine body, loop bodies, branches) of a program family containing EXIT, CYCLE, named CYCLE, RETURN, forward GOTO, DO WHILE and branches, plus a two-region history with one re-used transformation object (first region user-named, second default-named) and an enclosing third region. FortranWriter lowers the PSyData nodes; the written text is executed symbolically and every PSyData call becomes an event guarded by its path condition. z3 decides that no input makes a region start while open, end while closed, end out of LIFO order, receive another hook call while closed, or stay open at routine exit. Region-name uniqueness is a static comparison. Witnesses are replayed by compiling the instrumented text against a checking stub PSyData library with gfortran.",
+        note="Bounds: loops unrolled to K=3/4 (trip <= K assumed), regions of <= 3 statements; executions reaching STOP are outside the claim. Control transfers are executed by the interpreter's own semantics, not PSyclone's. Trusted: fparser2, z3, fsym, gfortran for replay.",
+        ref="5/C28"),
 }
 
 NA = {
